@@ -21,8 +21,8 @@ type Val struct {
 	K   string   `json:"k"` // null | true | false | int | dec | str | arr | obj
 	I   int64    `json:"i,omitempty"`
 	Neg bool     `json:"neg,omitempty"`
-	D   string   `json:"d,omitempty"` // significant digits without leading / trailing zeros; "" is zero
-	E   int      `json:"e,omitempty"` // power of ten of the last digit of D
+	D   string   `json:"d,omitempty"`   // significant digits without leading / trailing zeros; "" is zero
+	E   int      `json:"e,omitempty"`   // power of ten of the last digit of D
 	Big bool     `json:"big,omitempty"` // integer literal that does not fit int64
 	S   string   `json:"s,omitempty"`
 	A   []Val    `json:"a,omitempty"`
@@ -58,6 +58,19 @@ func (v Val) decimal() (bool, string, int) {
 	}
 	t := strings.TrimRight(s, "0")
 	return neg, t, len(s) - len(t)
+}
+
+// float is the float64 nearest to the number (0 and +-Inf beyond its range).
+func (v Val) float() float64 {
+	neg, d, e := v.decimal()
+	if d == "" {
+		return 0
+	}
+	f, _ := strconv.ParseFloat(d+"e"+strconv.Itoa(e), 64)
+	if neg {
+		f = -f
+	}
+	return f
 }
 
 // inModel: the documented number model (models.go: floats are float64) is
@@ -160,6 +173,11 @@ func lessCP(a, b string) bool {
 func sameContent(a, b Val) (bool, string) {
 	if a.isNum() && b.isNum() {
 		if !a.inModel() || !b.inModel() {
+			// outside the exact domain the documented model is float64: the
+			// nearest float64 of both spellings must be the same number
+			if a.float() != b.float() {
+				return false, "number-beyond-model-not-nearest-float64"
+			}
 			return true, ""
 		}
 		an, ad, ae := a.decimal()
